@@ -476,4 +476,24 @@ def live_queries(repo: Repo) -> RuleRun:
 
 live_queries.rule_id = "C18.LIVE-QUERIES"
 
-RULES = [scan, corner_table, frame_signs, triangle_partition, affine_kinds, stale_alias, no_stale_lazy_cache, orthogonal_frame, side_priority, live_queries]
+def flag_truthiness(repo: Repo) -> RuleRun:
+    """'find_core / find_shell(end_face=...) return the vertices of THAT end': the flag is tested by truth."""
+    from ..optional import flag_identity_rule
+
+    return flag_identity_rule(repo, PROP, "C18.FLAG-TRUTHINESS", ("modify.", "construct.", "optimize.", "util.", "mesh", "items.", "lists."))
+
+
+flag_truthiness.rule_id = "C18.FLAG-TRUTHINESS"
+
+
+def owns_viewpoint(repo: Repo) -> RuleRun:
+    """'the side facing the observer becomes front' - the observer given when the reorienter was created: the viewpoint and ceiling are private copies (a corner position of a neighbouring block passed as viewpoint moves with that block)."""
+    from ..alias import escaping_view_rule
+
+    return escaping_view_rule(repo, PROP, "C18.OWNS-VIEWPOINT", ("modify.",), floor=2)
+
+
+owns_viewpoint.rule_id = "C18.OWNS-VIEWPOINT"
+
+
+RULES = [scan, corner_table, frame_signs, triangle_partition, affine_kinds, stale_alias, no_stale_lazy_cache, orthogonal_frame, side_priority, live_queries, flag_truthiness, owns_viewpoint]
